@@ -188,15 +188,26 @@ def replay(rep, verbose=False):
     P, A = cg.concrete_inputs(model, n, Kc, kind)
     if P.min() <= cg.EPS or P.max() >= 1 - cg.EPS:
         return False
+    # the clipping precision is a constructor argument: an error of its size (invisible in float64 at the default 1e-12, visible to
+    # the exact check) is exhibited with a coarser one, at the same point, as long as nothing is clipped
+    gems = [(gem, None)]
+    if hasattr(gem, "epsilon"):
+        import inspect
+        accepted = set(inspect.signature(type(gem).__init__).parameters)
+        for eps in (1e-6, 1e-3, 1e-2):
+            if "epsilon" in accepted and 2 * eps < P.min() and P.max() < 1 - 2 * eps:
+                gems.append((type(gem)(**{k: v for k, v in gem.__dict__.items() if k in accepted and k != "epsilon"}, epsilon=eps), eps))
     for Ac in ([FIXED_AFFINITIES[rep["affinity"]](n)] if rep.get("affinity") else cg.affinity_candidates(kind, n, A)):
         Pl, Ac = _expand(P, Ac, rep.get("pattern"))
-        real = float(gem(Pl, Ac) if rep.get("via") == "call" else gem.evaluate(Pl, Ac))
         ref = cg.float_oracle(kind, ovo, Pl, Ac)
-        bad = not (abs(real - ref) <= TOL * max(1.0, abs(ref)))
-        if verbose:
-            print(f"P={Pl.tolist() if len(Pl) <= 8 else 'rows ' + str(P.tolist()) + ' in pattern ' + str(rep.get('pattern'))} A={None if Ac is None else Ac.tolist()} library={real!r} definition={ref!r} {'MISMATCH' if bad else 'ok'}")
-        if bad:
-            return True
+        for g, eps in gems:
+            real = float(g(Pl, Ac) if rep.get("via") == "call" else g.evaluate(Pl, Ac))
+            bad = not (abs(real - ref) <= TOL * max(1.0, abs(ref)))
+            if verbose:
+                print(f"P={Pl.tolist() if len(Pl) <= 8 else 'rows ' + str(P.tolist()) + ' in pattern ' + str(rep.get('pattern'))} A={None if Ac is None else Ac.tolist()}"
+                      f"{'' if eps is None else ' epsilon=' + str(eps)} library={real!r} definition={ref!r} {'MISMATCH' if bad else 'ok'}")
+            if bad:
+                return True
     return False
 
 
